@@ -133,6 +133,11 @@ def handle : List String → Option String
       | [c, s] => (true, c, s)
       | _ => (false, "", "")
     some (toString (GoSup.Spec.C08.holdsStream ss sb hasRet cls st (kvOf rest "closed" == some "1") (kvOf rest "single" != some "0")))
+  | "c12busyholds" :: rest => do
+    -- every configured address is held by a foreign listener: the runner never reports Running
+    let ss := ((kvOf rest "ss").getD "").splitOn ">" |>.filter (· ≠ "")
+    let sb := ((kvOf rest "sb").getD "").splitOn ">" |>.filter (· ≠ "")
+    some (toString (!ss.contains "Running" && !sb.contains "Running"))
   | "known" :: "C08-F1" :: rest => do
     let ss := ((kvOf rest "ss").getD "").splitOn ">" |>.filter (· ≠ "")
     let sb := ((kvOf rest "sb").getD "").splitOn ">" |>.filter (· ≠ "")
